@@ -299,8 +299,13 @@ pub fn run(rt: &tokio::runtime::Runtime, pool: &KeyPool, sc: &Value) -> Value {
                     let signed = rt.block_on(editor.sign(&keys))?;
                     s.generation += 1;
                     let gen = s.work.join(format!("gen{}", s.generation));
+                    // "same_dir": the metadata is written a second time, into the directory of the previous generation (which
+                    // still holds its files), and loaded from there as well
+                    let same = op["same_dir"].as_bool().unwrap_or(false) && s.generation > 1 && s.metadata.is_dir();
+                    let old_md = s.metadata.clone();
                     let md = gen.join("metadata");
                     let td = gen.join("targets");
+                    let exists = PathExists::Fail;
                     std::fs::create_dir_all(&td).unwrap();
                     rt.block_on(signed.write(&md))?;
                     // publish targets: copy or symlink every source file given
@@ -322,9 +327,9 @@ pub fn run(rt: &tokio::runtime::Runtime, pool: &KeyPool, sc: &Value) -> Value {
                     for (nm, src) in todo {
                         let tn = TargetName::new(nm.as_str())?;
                         let r = if op["link"].as_bool().unwrap_or(false) {
-                            rt.block_on(signed.link_target(&src, &td, PathExists::Fail, Some(&tn)))
+                            rt.block_on(signed.link_target(&src, &td, exists, Some(&tn)))
                         } else {
-                            rt.block_on(signed.copy_target(&src, &td, PathExists::Fail, Some(&tn)))
+                            rt.block_on(signed.copy_target(&src, &td, exists, Some(&tn)))
                         };
                         publish.push(json!([of_str(&nm), match r {
                             Ok(()) => json!([0]),
@@ -333,9 +338,18 @@ pub fn run(rt: &tokio::runtime::Runtime, pool: &KeyPool, sc: &Value) -> Value {
                     }
                     // carry over already published target files of the previous generation
                     copy_tree(&s.targets, &td);
-                    s.metadata = md;
                     s.targets = td;
-                    Ok(json!([0, publish]))
+                    let mut same_dir_load = json!([]);
+                    if same {
+                        rt.block_on(signed.write(&old_md))?;
+                        s.metadata = old_md;
+                        same_dir_load = match s.load_repo(rt) {
+                            Ok(_) => json!([[0]]),
+                            Err(e) => json!([err_class(&e)]),
+                        };
+                    }
+                    s.metadata = md;
+                    Ok(json!([0, publish, same_dir_load]))
                 }
                 "load" => {
                     let repo = s.load_repo(rt)?;
